@@ -111,6 +111,15 @@ def run(ctx):
     ctx.ob('C40.length', 'DataPacketReceiver.remaining.dec', len(dec) == 1 and len(ld) == 2 and
            q.atoms(dec[0]) == {(V, True), ('data_bytes_remaining >= 5', True)}, dec[0].loc if dec else None,
            'remaining bytes decremented by 4 per valid word while more than 4 remain')
+    # the byte counter is loaded from the 16-bit Data Length field, whose largest legal value is the maximum packet size:
+    # it must be able to hold it, otherwise a maximum-size packet is taken for a shorter one (truncation on the load)
+    si = ir.signals.get('data_bytes_remaining')
+    mps = ctx.const('DataPacketReceiver', 'MAX_PACKET_SIZE') if hasattr(ctx, 'const') else None
+    if not isinstance(mps, int):
+        mps = 1024                      # USB 3.2 8.6: maximum data packet payload
+    ctx.ob('C40.length', 'DataPacketReceiver.remaining.capacity', si is not None and si.w is not None and (1 << si.w) > mps,
+           si.loc if si is not None else None,
+           'the remaining-bytes counter (width %s) must hold the maximum packet size %d' % (getattr(si, 'w', None), mps))
     for k, (pv, want) in enumerate(((15, 'self.sink.payload'), (7, 'Cat(previous_word[24:32], self.sink.payload[0:24])'),
                                     (3, 'Cat(previous_word[16:32], self.sink.payload[0:16])'),
                                     (1, 'Cat(previous_word[8:32], self.sink.payload[0:8])'))):
